@@ -292,6 +292,39 @@ pub fn crash_drop_clear(c: usize, r: usize) {
     end_reached!();
 }
 
+/// A destructor that panics at its k-th call while the `DrainCol` of `remove_col(idx)` is being
+/// dropped (0 or 1 items already taken): at the crash point the array must be a valid array. What
+/// toodee's drop guard does afterwards (it keeps draining and moves the remaining columns back)
+/// runs during unwinding, which Kani does not model; the native replay exercises it and observes
+/// the array after the caught panic.
+pub fn crash_drop_drain_col(c: usize, r: usize) {
+    let mut t = owned_tok(c, r, false);
+    let idx = nd::below(c);
+    let take = nd::upto(1);
+    arm(&t, r);
+    let panicked = guarded(|| {
+        let mut d = t.remove_col(idx);
+        let first = if take == 1 { d.next() } else { None };
+        unsafe {
+            DROP_TICKS = true;
+        }
+        drop(d);
+        unsafe {
+            DROP_TICKS = false;
+        }
+        drop(first);
+    });
+    unsafe {
+        DROP_TICKS = false;
+    }
+    observe_array(&t);
+    if !panicked {
+        assert!(t.size() == (if c == 1 { 0 } else { c - 1 }, if c == 1 { 0 } else { r }), "ORACLE: remove_col + drop of the drain did not leave (C-1, R)");
+    }
+    drop(t);
+    end_reached!();
+}
+
 /// Constructors running caller code: new (Default) / init (Clone) crashing at the k-th call:
 /// nothing may be dropped twice (the array under construction is not observable).
 pub fn crash_construct(op: u8, c: usize, r: usize) {
